@@ -3,25 +3,10 @@
   is a valid rendering (`Rend`) of the same expression, hence parsed back to the identical tree.
 -/
 import CedarGoProofs.Lemmas.C07Head
+import CedarGoProofs.Lemmas.C08Values
 import CedarGo.Model.Text.Marshal
 namespace CedarGo.Text
 open CedarGo
-
-/-! ## tokens of a piece list -/
-
-@[simp] theorem pieceToks_nil : pieceToks [] = [] := rfl
-@[simp] theorem pieceToks_t (t : Token) (ps : List Piece) : pieceToks (.t t :: ps) = t :: pieceToks ps := rfl
-@[simp] theorem pieceToks_s (s : String) (ps : List Piece) : pieceToks (.s s :: ps) = pieceToks ps := rfl
-
-@[simp] theorem pieceToks_append (a b : List Piece) : pieceToks (a ++ b) = pieceToks a ++ pieceToks b := by
-  induction a with
-  | nil => rfl
-  | cons p ps ih => cases p <;> simp [ih]
-
-@[simp] theorem pieceToks_toksP (ts : List Token) : pieceToks (toksP ts) = ts := by
-  induction ts with
-  | nil => rfl
-  | cons t ts ih => simp [toksP] at ih ⊢; exact ih
 
 theorem pieceToks_goWrap (lvl : Nat) (c : Expr) (ps : List Piece) :
     pieceToks (goWrap lvl c ps) = wrapIf (decide (lvl > goPrec c)) (pieceToks ps) := by
@@ -56,9 +41,10 @@ theorem prec_negLong (c : Expr) (h : isNegLong c = true) : prec c = 6 := by
   | _ => simp [isNegLong] at h
 
 /-- an operand written by `marshalChildNode(g, c)` is a valid rendering where level `q ≤ g` is required,
-    unless `c` is a negative literal and `q = 7` (receivers: `rend_goWrapRecv`) -/
-theorem rend_goWrap {c : Expr} {ts : List Token} (h : Rend (.e (prec c) c) ts) (g q : Nat) (hq : q ≤ g)
-    (hneg : isNegLong c = true → q ≤ 6) : Rend (.e q c) (wrapIf (decide (g > goPrec c)) ts) := by
+    unless `c` is a negative literal and `q = 7` (receivers: `rend_goWrapRecv`).  `x` = what the text of `c` spells
+    (`c` itself, or `desugar c` when `c` contains `NodeValue`s without literal syntax) -/
+theorem rend_goWrap {c x : Expr} {ts : List Token} (h : Rend (.e (prec c) x) ts) (g q : Nat) (hq : q ≤ g)
+    (hneg : isNegLong c = true → q ≤ 6) : Rend (.e q x) (wrapIf (decide (g > goPrec c)) ts) := by
   refine rend_wrap h _ q (fun hb => ?_)
   simp only [decide_eq_false_iff_not, Nat.not_lt] at hb
   cases hn : isNegLong c with
@@ -66,8 +52,8 @@ theorem rend_goWrap {c : Expr} {ts : List Token} (h : Rend (.e (prec c) c) ts) (
   | false => exact Nat.le_trans (Nat.le_trans hq hb) (goPrec_le_prec c hn)
 
 /-- a receiver written by `marshalReceiverNode(7, c)` is a valid rendering at member level -/
-theorem rend_goWrapRecv {c : Expr} {ts : List Token} (h : Rend (.e (prec c) c) ts) :
-    Rend (.e 7 c) (wrapIf (isNegLong c || decide (7 > goPrec c)) ts) := by
+theorem rend_goWrapRecv {c x : Expr} {ts : List Token} (h : Rend (.e (prec c) x) ts) :
+    Rend (.e 7 x) (wrapIf (isNegLong c || decide (7 > goPrec c)) ts) := by
   cases hn : isNegLong c with
   | true => exact rend_wrap h _ 7 (fun hb => by simp at hb)
   | false =>
@@ -81,55 +67,45 @@ theorem goInfix_binForm {op : BinOp} {tok : Token} {lp rp : Nat} (h : goInfix op
 theorem goInfix_none {op : BinOp} (h : goInfix op = none) : binForm op = .method (goMethodName op) ∧ binPrec op = 7 := by
   cases op <;> simp [goInfix] at h <;> simp [binForm, goMethodName, binPrec]
 
+theorem isNonNegLong_desugar (e : Expr) : isNonNegLong (desugar e) = isNonNegLong e := by
+  cases e with
+  | lit v => cases v <;> simp [desugar, valExpr, isNonNegLong]
+  | _ => simp [desugar, isNonNegLong]
+
+theorem desugarKVs_keys : ∀ (kes : List (String × Expr)), (desugarKVs kes).map (·.1) = kes.map (·.1)
+  | [] => rfl
+  | (k, e) :: rest => by simp [desugarKVs, desugarKVs_keys rest]
+
 mutual
-/-- the token list of `MarshalCedar(e)` is a valid rendering of `e` at the natural level of `e` -/
-theorem marshal_rend : ∀ (e : Expr), inFragGo e = true → Rend (.e (prec e) e) (pieceToks (marshalExpr e))
+/-- the token list of `MarshalCedar(e)` is a valid rendering of `desugar e` at the natural level of `e` -/
+theorem marshal_rendV : ∀ (e : Expr), inFragGoV e = true → Rend (.e (prec e) (desugar e)) (pieceToks (marshalExpr e))
   | .lit v, h => by
-    cases v <;> simp [inFragGo] at h
-    · rename_i b; exact .litBool b
-    · rename_i n
-      simp only [marshalExpr, marshalLit]
-      by_cases hn : n < 0
-      · have hp : prec (.lit (.long n)) = 6 := by simp [prec, hn]
-        rw [hp]
-        simp only [hn, ↓reduceIte, pieceToks_t, pieceToks_nil]
-        have := Rend.litNeg (lvl := 6) n.natAbs (by omega) (Nat.le_refl _)
-        rw [int_natAbs_neg n hn] at this
-        exact this
-      · have hp : prec (.lit (.long n)) = 8 := by simp [prec, hn]
-        rw [hp]
-        simp only [hn, ↓reduceIte, pieceToks_t, pieceToks_nil]
-        have := Rend.litNat (lvl := 8) n.toNat (by omega)
-        rw [int_toNat_nonneg n hn] at this
-        exact this
-    · rename_i s; exact .litStr s
-    · rename_i ty id
-      obtain ⟨first, parts, hp⟩ := pathOK_of_isPathName ty h
-      simp only [marshalExpr, marshalLit, pieceToks_toksP]
-      exact .entity ty id first parts hp
+    simp only [inFragGoV] at h
+    simp only [marshalExpr, marshalLit, desugar]
+    exact val_rend v h
   | .var v, _ => .var v
   | .unop .not e, h => by
-    simp only [inFragGo] at h
-    simp only [marshalExpr, pieceToks_t, pieceToks_goWrap]
-    exact .not (rend_goWrap (marshal_rend e h) 6 6 (Nat.le_refl _) (fun _ => Nat.le_refl _)) (Nat.le_refl _)
+    simp only [inFragGoV] at h
+    simp only [marshalExpr, desugar, pieceToks_t, pieceToks_goWrap]
+    exact .not (rend_goWrap (marshal_rendV e h) 6 6 (Nat.le_refl _) (fun _ => Nat.le_refl _)) (Nat.le_refl _)
   | .unop .neg e, h => by
-    simp only [inFragGo, Bool.and_eq_true, Bool.not_eq_true'] at h
+    simp only [inFragGoV, Bool.and_eq_true, Bool.not_eq_true'] at h
     have hp : prec (.unop .neg e) = 6 := rfl
     rw [hp]
-    simp only [marshalExpr, pieceToks_t, pieceToks_goWrap]
-    have hw := rend_goWrap (marshal_rend e h.1) 6 6 (Nat.le_refl _) (fun _ => Nat.le_refl _)
-    exact .neg hw (negLitAt_of_rend hw (Nat.le_refl _) h.2) (Nat.le_refl _)
+    simp only [marshalExpr, desugar, pieceToks_t, pieceToks_goWrap]
+    have hw := rend_goWrap (marshal_rendV e h.1) 6 6 (Nat.le_refl _) (fun _ => Nat.le_refl _)
+    exact .neg hw (negLitAt_of_rend hw (Nat.le_refl _) (by rw [isNonNegLong_desugar]; exact h.2)) (Nat.le_refl _)
   | .unop .isEmpty e, h => by
-    simp only [inFragGo] at h
-    simp only [marshalExpr, pieceToks_append, pieceToks_goWrapRecv, pieceToks_toksP]
-    exact .isEmpty (rend_goWrapRecv (marshal_rend e h)) (Nat.le_refl _)
+    simp only [inFragGoV] at h
+    simp only [marshalExpr, desugar, pieceToks_append, pieceToks_goWrapRecv, pieceToks_toksP]
+    exact .isEmpty (rend_goWrapRecv (marshal_rendV e h)) (Nat.le_refl _)
   | .binop op l r, h => by
-    simp only [inFragGo, Bool.and_eq_true] at h
-    have hl := marshal_rend l h.1
-    have hr := marshal_rend r h.2
+    simp only [inFragGoV, Bool.and_eq_true] at h
+    have hl := marshal_rendV l h.1
+    have hr := marshal_rendV r h.2
     have hp : prec (.binop op l r) = binPrec op := rfl
     rw [hp]
-    simp only [marshalExpr]
+    simp only [marshalExpr, desugar]
     cases hf : goInfix op with
     | some v =>
       obtain ⟨tok, lp, rp⟩ := v
@@ -143,105 +119,208 @@ theorem marshal_rend : ∀ (e : Expr), inFragGo e = true → Rend (.e (prec e) e
       simp only [pieceToks_append, pieceToks_goWrap, pieceToks_goWrapRecv, pieceToks_t, pieceToks_nil]
       exact .method hb (rend_goWrapRecv hl) (rend_goWrap hr 7 0 (Nat.zero_le _) (fun _ => by omega)) (Nat.le_refl _)
   | .ite c t e, h => by
-    simp only [inFragGo, Bool.and_eq_true] at h
-    simp only [marshalExpr, pieceToks_append, pieceToks_goWrap, pieceToks_s, pieceToks_t]
-    exact .ite (rend_goWrap (marshal_rend c h.1.1) 0 0 (Nat.le_refl _) (fun _ => by omega))
-      (rend_goWrap (marshal_rend t h.1.2) 0 0 (Nat.le_refl _) (fun _ => by omega))
-      (rend_goWrap (marshal_rend e h.2) 0 0 (Nat.le_refl _) (fun _ => by omega))
+    simp only [inFragGoV, Bool.and_eq_true] at h
+    simp only [marshalExpr, desugar, pieceToks_append, pieceToks_goWrap, pieceToks_s, pieceToks_t]
+    exact .ite (rend_goWrap (marshal_rendV c h.1.1) 0 0 (Nat.le_refl _) (fun _ => by omega))
+      (rend_goWrap (marshal_rendV t h.1.2) 0 0 (Nat.le_refl _) (fun _ => by omega))
+      (rend_goWrap (marshal_rendV e h.2) 0 0 (Nat.le_refl _) (fun _ => by omega))
   | .access e a, h => by
-    simp only [inFragGo] at h
-    have hr := rend_goWrapRecv (marshal_rend e h)
+    simp only [inFragGoV] at h
+    have hr := rend_goWrapRecv (marshal_rendV e h)
     have hp : prec (.access e a) = 7 := rfl
     rw [hp]
-    simp only [marshalExpr, goAccessP, pieceToks_append, pieceToks_goWrapRecv]
+    simp only [marshalExpr, desugar, goAccessP, pieceToks_append, pieceToks_goWrapRecv]
     by_cases hc : isIdentName a = true
     · simp only [hc, ↓reduceIte, pieceToks_t, pieceToks_nil]
       exact .accessDot a hr (Nat.le_refl _)
     · simp only [hc, Bool.false_eq_true, ↓reduceIte, pieceToks_t, pieceToks_nil]
       exact .accessIdx a hr (Nat.le_refl _)
   | .has e a, h => by
-    simp only [inFragGo] at h
-    have hr := rend_goWrap (marshal_rend e h) 4 4 (Nat.le_refl _) (fun _ => by omega)
+    simp only [inFragGoV] at h
+    have hr := rend_goWrap (marshal_rendV e h) 4 4 (Nat.le_refl _) (fun _ => by omega)
     have hp : prec (.has e a) = 3 := rfl
     rw [hp]
-    simp only [marshalExpr, goAttrP, pieceToks_append, pieceToks_goWrap, pieceToks_s, pieceToks_t]
+    simp only [marshalExpr, desugar, goAttrP, pieceToks_append, pieceToks_goWrap, pieceToks_s, pieceToks_t]
     by_cases hc : isIdentName a = true
     · simp only [hc, ↓reduceIte, pieceToks_t, pieceToks_nil]
       exact .hasId a hr (Nat.le_refl _)
     · simp only [hc, Bool.false_eq_true, ↓reduceIte, pieceToks_t, pieceToks_nil]
       exact .hasStr a hr (Nat.le_refl _)
-  | .like _ _, h => by simp [inFragGo] at h
+  | .like e p, h => by
+    simp only [inFragGoV, Bool.and_eq_true] at h
+    have hr := rend_goWrap (marshal_rendV e h.1) 4 4 (Nat.le_refl _) (fun _ => by omega)
+    obtain ⟨t, ht, hty, _, hparse⟩ := patT_roundtrip p h.2
+    have hp : prec (.like e p) = 3 := rfl
+    rw [hp]
+    simp only [marshalExpr, desugar, ht, pieceToks_append, pieceToks_goWrap, pieceToks_s, pieceToks_t, pieceToks_nil]
+    exact .like p t hty hparse hr (Nat.le_refl _)
   | .is e ty, h => by
-    simp only [inFragGo, Bool.and_eq_true] at h
+    simp only [inFragGoV, Bool.and_eq_true] at h
     obtain ⟨first, parts, hp⟩ := pathOK_of_isPathName ty h.2
     have hpr : prec (.is e ty) = 3 := rfl
     rw [hpr]
-    simp only [marshalExpr, pieceToks_append, pieceToks_goWrap, pieceToks_s, pieceToks_t, pieceToks_toksP]
-    exact .is ty first parts hp (rend_goWrap (marshal_rend e h.1) 4 4 (Nat.le_refl _) (fun _ => by omega)) (Nat.le_refl _)
+    simp only [marshalExpr, desugar, pieceToks_append, pieceToks_goWrap, pieceToks_s, pieceToks_t, pieceToks_toksP]
+    exact .is ty first parts hp (rend_goWrap (marshal_rendV e h.1) 4 4 (Nat.le_refl _) (fun _ => by omega)) (Nat.le_refl _)
   | .isIn e ty r, h => by
-    simp only [inFragGo, Bool.and_eq_true] at h
+    simp only [inFragGoV, Bool.and_eq_true] at h
     obtain ⟨first, parts, hp⟩ := pathOK_of_isPathName ty h.1.2
     have hpr : prec (.isIn e ty r) = 3 := rfl
     rw [hpr]
-    simp only [marshalExpr, pieceToks_append, pieceToks_goWrap, pieceToks_s, pieceToks_t, pieceToks_toksP]
-    exact .isIn ty first parts hp (rend_goWrap (marshal_rend e h.1.1) 4 4 (Nat.le_refl _) (fun _ => by omega))
-      (rend_goWrap (marshal_rend r h.2) 4 4 (Nat.le_refl _) (fun _ => by omega)) (Nat.le_refl _)
+    simp only [marshalExpr, desugar, pieceToks_append, pieceToks_goWrap, pieceToks_s, pieceToks_t, pieceToks_toksP]
+    exact .isIn ty first parts hp (rend_goWrap (marshal_rendV e h.1.1) 4 4 (Nat.le_refl _) (fun _ => by omega))
+      (rend_goWrap (marshal_rendV r h.2) 4 4 (Nat.le_refl _) (fun _ => by omega)) (Nat.le_refl _)
   | .set es, h => by
-    simp only [inFragGo] at h
-    simp only [marshalExpr, pieceToks_t, pieceToks_append, pieceToks_nil]
-    exact .set (marshalArgs_rend 8 es h)
+    simp only [inFragGoV] at h
+    simp only [marshalExpr, desugar, pieceToks_t, pieceToks_append, pieceToks_nil]
+    exact .set (marshalArgs_rendV 8 es h)
   | .record kes, h => by
-    simp only [inFragGo, Bool.and_eq_true, decide_eq_true_eq] at h
-    simp only [marshalExpr, pieceToks_t, pieceToks_append, pieceToks_nil]
-    exact .record (marshalKVs_rend kes h.1) h.2
+    simp only [inFragGoV, Bool.and_eq_true, decide_eq_true_eq] at h
+    simp only [marshalExpr, desugar, pieceToks_t, pieceToks_append, pieceToks_nil]
+    exact .record (marshalKVs_rendV kes h.1) (by rw [desugarKVs_keys]; exact h.2)
   | .call fn [], h => by
-    simp only [inFragGo, Bool.and_eq_true] at h
+    simp only [inFragGoV, Bool.and_eq_true] at h
     by_cases hm : isMethodName fn = true
     · simp [callOK, hm] at h
     · have hm' : isMethodName fn = false := by simpa using hm
       have hp : prec (.call fn []) = 8 := by simp [prec, hm']
       rw [hp]
-      simp only [marshalExpr, hm', Bool.false_eq_true, ↓reduceIte, pieceToks_t, pieceToks_append, pieceToks_nil]
-      exact .callFn (checkFunction_of_callOK fn [] hm' h.1) (marshalArgs_rend 7 [] rfl)
+      simp only [marshalExpr, desugar, desugarList, hm', Bool.false_eq_true, ↓reduceIte, pieceToks_t, pieceToks_append, pieceToks_nil]
+      exact .callFn (checkFunction_of_callOK fn [] hm' h.1) (marshalArgs_rendV 7 [] rfl)
   | .call fn (recv :: rest), h => by
-    simp only [inFragGo, inFragGoList, Bool.and_eq_true] at h
+    simp only [inFragGoV, inFragGoVList, Bool.and_eq_true] at h
     by_cases hm : isMethodName fn = true
     · have hp : prec (.call fn (recv :: rest)) = 7 := by simp [prec, hm]
       rw [hp]
-      simp only [marshalExpr, hm, ↓reduceIte, pieceToks_t, pieceToks_append, pieceToks_goWrapRecv, pieceToks_nil]
-      exact .callMethod (mkMethod_ext fn hm recv rest) (rend_goWrapRecv (marshal_rend recv h.2.1))
-        (marshalArgs_rend 7 rest h.2.2) (Nat.le_refl _)
+      simp only [marshalExpr, desugar, desugarList, hm, ↓reduceIte, pieceToks_t, pieceToks_append, pieceToks_goWrapRecv, pieceToks_nil]
+      exact .callMethod (mkMethod_ext fn hm (desugar recv) (desugarList rest)) (rend_goWrapRecv (marshal_rendV recv h.2.1))
+        (marshalArgs_rendV 7 rest h.2.2) (Nat.le_refl _)
     · have hm' : isMethodName fn = false := by simpa using hm
       have hp : prec (.call fn (recv :: rest)) = 8 := by simp [prec, hm']
       rw [hp]
-      simp only [marshalExpr, hm', Bool.false_eq_true, ↓reduceIte, pieceToks_t, pieceToks_append, pieceToks_nil]
-      have hargs : inFragGoList (recv :: rest) = true := by simp [inFragGoList, h.2.1, h.2.2]
-      exact .callFn (checkFunction_of_callOK fn _ hm' h.1) (marshalArgs_rend 7 (recv :: rest) hargs)
-theorem marshalArgs_rend (g : Nat) : ∀ (es : List Expr), inFragGoList es = true → Rend (.args es) (pieceToks (marshalArgs g es))
+      simp only [marshalExpr, desugar, hm', Bool.false_eq_true, ↓reduceIte, pieceToks_t, pieceToks_append, pieceToks_nil]
+      have hargs : inFragGoVList (recv :: rest) = true := by simp [inFragGoVList, h.2.1, h.2.2]
+      have hcall : callOK fn (desugarList (recv :: rest)) = true := by
+        have := h.1
+        simpa [callOK, hm', desugarList] using this
+      exact .callFn (checkFunction_of_callOK fn _ hm' hcall) (marshalArgs_rendV 7 (recv :: rest) hargs)
+theorem marshalArgs_rendV (g : Nat) : ∀ (es : List Expr), inFragGoVList es = true →
+    Rend (.args (desugarList es)) (pieceToks (marshalArgs g es))
   | [], _ => .argsNil
   | [e], h => by
-    simp only [inFragGoList, Bool.and_true] at h
-    simp only [marshalArgs, pieceToks_goWrap]
-    exact .argsOne (rend_goWrap (marshal_rend e h) g 0 (Nat.zero_le _) (fun _ => by omega))
+    simp only [inFragGoVList, Bool.and_true] at h
+    simp only [marshalArgs, desugarList, pieceToks_goWrap]
+    exact .argsOne (rend_goWrap (marshal_rendV e h) g 0 (Nat.zero_le _) (fun _ => by omega))
   | e :: e' :: es, h => by
-    simp only [inFragGoList, Bool.and_eq_true] at h
-    have h2 : inFragGoList (e' :: es) = true := by simp [inFragGoList, h.2.1, h.2.2]
-    simp only [marshalArgs, pieceToks_append, pieceToks_goWrap, pieceToks_t, pieceToks_s]
-    exact .argsCons (rend_goWrap (marshal_rend e h.1) g 0 (Nat.zero_le _) (fun _ => by omega)) (marshalArgs_rend g (e' :: es) h2)
-theorem marshalKVs_rend : ∀ (kes : List (String × Expr)), inFragGoKVs kes = true → Rend (.kvs kes) (pieceToks (marshalKVs kes))
+    simp only [inFragGoVList, Bool.and_eq_true] at h
+    have h2 : inFragGoVList (e' :: es) = true := by simp [inFragGoVList, h.2.1, h.2.2]
+    have ih := marshalArgs_rendV g (e' :: es) h2
+    simp only [marshalArgs, desugarList, pieceToks_append, pieceToks_goWrap, pieceToks_t, pieceToks_s] at ih ⊢
+    exact .argsCons (rend_goWrap (marshal_rendV e h.1) g 0 (Nat.zero_le _) (fun _ => by omega)) ih
+theorem marshalKVs_rendV : ∀ (kes : List (String × Expr)), inFragGoVKVs kes = true →
+    Rend (.kvs (desugarKVs kes)) (pieceToks (marshalKVs kes))
   | [], _ => .kvsNil
   | [(k, e)], h => by
-    simp only [inFragGoKVs, Bool.and_true] at h
-    simp only [marshalKVs, pieceToks_t, pieceToks_goWrap]
-    exact .kvsOne (keyTok_string k) (rend_goWrap (marshal_rend e h) 8 0 (Nat.zero_le _) (fun _ => by omega))
+    simp only [inFragGoVKVs, Bool.and_true] at h
+    simp only [marshalKVs, desugarKVs, pieceToks_t, pieceToks_goWrap]
+    exact .kvsOne (keyTok_string k) (rend_goWrap (marshal_rendV e h) 8 0 (Nat.zero_le _) (fun _ => by omega))
   | (k, e) :: ke' :: kes, h => by
-    rw [inFragGoKVs] at h
+    rw [inFragGoVKVs] at h
     simp only [Bool.and_eq_true] at h
-    have h2 : inFragGoKVs (ke' :: kes) = true := h.2
-    simp only [marshalKVs, pieceToks_t, pieceToks_append, pieceToks_goWrap, pieceToks_s]
-    exact .kvsCons (keyTok_string k) (rend_goWrap (marshal_rend e h.1) 8 0 (Nat.zero_le _) (fun _ => by omega))
-      (by simp) (marshalKVs_rend (ke' :: kes) h2)
+    have h2 : inFragGoVKVs (ke' :: kes) = true := h.2
+    have ih := marshalKVs_rendV (ke' :: kes) h2
+    obtain ⟨k', e'⟩ := ke'
+    simp only [marshalKVs, desugarKVs, pieceToks_t, pieceToks_append, pieceToks_goWrap, pieceToks_s] at ih ⊢
+    exact .kvsCons (keyTok_string k) (rend_goWrap (marshal_rendV e h.1) 8 0 (Nat.zero_le _) (fun _ => by omega))
+      (by simp) ih
 end
+
+/-! ## the fragment without value-only `NodeValue`s: the text spells the tree itself -/
+
+mutual
+theorem inFragGoV_of_inFragGo : ∀ (e : Expr), inFragGo e = true → inFragGoV e = true ∧ desugar e = e
+  | .lit v, h => by
+    cases v <;> simp [inFragGo] at h <;> simp [inFragGoV, valOK, inI64B, desugar, valExpr, h]
+  | .var v, _ => ⟨rfl, rfl⟩
+  | .unop .not e, h => by
+    simp only [inFragGo] at h
+    have := inFragGoV_of_inFragGo e h
+    simp [inFragGoV, desugar, this.1, this.2]
+  | .unop .neg e, h => by
+    simp only [inFragGo, Bool.and_eq_true] at h
+    have := inFragGoV_of_inFragGo e h.1
+    simp [inFragGoV, desugar, this.1, this.2, h.2]
+  | .unop .isEmpty e, h => by
+    simp only [inFragGo] at h
+    have := inFragGoV_of_inFragGo e h
+    simp [inFragGoV, desugar, this.1, this.2]
+  | .binop op l r, h => by
+    simp only [inFragGo, Bool.and_eq_true] at h
+    have h1 := inFragGoV_of_inFragGo l h.1
+    have h2 := inFragGoV_of_inFragGo r h.2
+    simp [inFragGoV, desugar, h1.1, h1.2, h2.1, h2.2]
+  | .ite c t e, h => by
+    simp only [inFragGo, Bool.and_eq_true] at h
+    have h1 := inFragGoV_of_inFragGo c h.1.1
+    have h2 := inFragGoV_of_inFragGo t h.1.2
+    have h3 := inFragGoV_of_inFragGo e h.2
+    simp [inFragGoV, desugar, h1.1, h1.2, h2.1, h2.2, h3.1, h3.2]
+  | .access e a, h => by
+    simp only [inFragGo] at h
+    have := inFragGoV_of_inFragGo e h
+    simp [inFragGoV, desugar, this.1, this.2]
+  | .has e a, h => by
+    simp only [inFragGo] at h
+    have := inFragGoV_of_inFragGo e h
+    simp [inFragGoV, desugar, this.1, this.2]
+  | .like e p, h => by
+    simp only [inFragGo, Bool.and_eq_true] at h
+    have := inFragGoV_of_inFragGo e h.1
+    simp [inFragGoV, desugar, this.1, this.2, h.2]
+  | .is e ty, h => by
+    simp only [inFragGo, Bool.and_eq_true] at h
+    have := inFragGoV_of_inFragGo e h.1
+    simp [inFragGoV, desugar, this.1, this.2, h.2]
+  | .isIn e ty r, h => by
+    simp only [inFragGo, Bool.and_eq_true] at h
+    have h1 := inFragGoV_of_inFragGo e h.1.1
+    have h2 := inFragGoV_of_inFragGo r h.2
+    simp [inFragGoV, desugar, h1.1, h1.2, h2.1, h2.2, h.1.2]
+  | .set es, h => by
+    simp only [inFragGo] at h
+    have := inFragGoVList_of es h
+    simp [inFragGoV, desugar, this.1, this.2]
+  | .record kes, h => by
+    simp only [inFragGo, Bool.and_eq_true] at h
+    have := inFragGoVKVs_of kes h.1
+    simp only [inFragGoV, desugar, this.1, this.2, Bool.true_and, and_true]
+    exact h.2
+  | .call fn args, h => by
+    simp only [inFragGo, Bool.and_eq_true] at h
+    have := inFragGoVList_of args h.2
+    simp [inFragGoV, desugar, this.1, this.2, h.1]
+theorem inFragGoVList_of : ∀ (es : List Expr), inFragGoList es = true → inFragGoVList es = true ∧ desugarList es = es
+  | [], _ => ⟨rfl, rfl⟩
+  | e :: es, h => by
+    simp only [inFragGoList, Bool.and_eq_true] at h
+    have h1 := inFragGoV_of_inFragGo e h.1
+    have h2 := inFragGoVList_of es h.2
+    simp [inFragGoVList, desugarList, h1.1, h1.2, h2.1, h2.2]
+theorem inFragGoVKVs_of : ∀ (kes : List (String × Expr)), inFragGoKVs kes = true →
+    inFragGoVKVs kes = true ∧ desugarKVs kes = kes
+  | [], _ => ⟨rfl, rfl⟩
+  | (k, e) :: kes, h => by
+    simp only [inFragGoKVs, Bool.and_eq_true] at h
+    have h1 := inFragGoV_of_inFragGo e h.1
+    have h2 := inFragGoVKVs_of kes h.2
+    simp [inFragGoVKVs, desugarKVs, h1.1, h1.2, h2.1, h2.2]
+end
+
+/-- the token list of `MarshalCedar(e)` is a valid rendering of `e` at the natural level of `e` -/
+theorem marshal_rend (e : Expr) (h : inFragGo e = true) : Rend (.e (prec e) e) (pieceToks (marshalExpr e)) := by
+  have := inFragGoV_of_inFragGo e h
+  have hr := marshal_rendV e this.1
+  rw [this.2] at hr
+  exact hr
 
 /-! ## policies -/
 
@@ -335,6 +414,45 @@ theorem policyReads_marshal {p : Policy} (h : policyOKGo p = true) : PolicyReads
   simp only [policyOKGo, Bool.and_eq_true, beq_iff_eq] at h
   rw [marshalPolicy_head]
   exact policyReads_of_head h.1.1 h.1.2 (condsRend_marshal _ h.2)
+
+/-! ## policies whose conditions contain `NodeValue`s without literal syntax: read back to `desugarPolicy p` -/
+
+theorem condsRend_marshalV : ∀ (cs : List (Bool × Expr)), cs.all (fun c => inFragGoV c.2) = true →
+    CondsRend (desugarConds cs) (pieceToks (marshalConditions cs))
+  | [], _ => .nil
+  | (w, e) :: cs, h => by
+    simp only [List.all_cons, Bool.and_eq_true] at h
+    simp only [marshalConditions, desugarConds, pieceToks_s, pieceToks_t, pieceToks_append]
+    have hr : ReadsAt 0 (desugar e) (pieceToks (marshalExpr e)) :=
+      (rend_spec (rend_mono (marshal_rendV e h.1) (Nat.zero_le _)) (Nat.zero_le _)).1
+    exact .cons hr (condsRend_marshalV cs h.2)
+
+theorem policyReads_marshalV {p : Policy} (h : policyOKGoV p = true) :
+    PolicyReads (desugarPolicy p) (pieceToks (marshalPolicy p)) := by
+  simp only [policyOKGoV, Bool.and_eq_true, beq_iff_eq] at h
+  rw [marshalPolicy_head]
+  exact policyReads_of_head (p := desugarPolicy p) h.1.1 h.1.2 (condsRend_marshalV _ h.2)
+
+theorem polsReads_marshalV : ∀ (ps : List Policy), ps.all policyOKGoV = true → PolsReads (ps.map desugarPolicy) (marshalListToks ps)
+  | [], _ => .nil
+  | p :: ps, h => by
+    simp only [List.all_cons, Bool.and_eq_true] at h
+    exact .cons (policyReads_marshalV h.1) (polsReads_marshalV ps h.2)
+
+theorem desugarConds_id : ∀ (cs : List (Bool × Expr)), cs.all (fun c => inFragGo c.2) = true → desugarConds cs = cs
+  | [], _ => rfl
+  | (w, e) :: cs, h => by
+    simp only [List.all_cons, Bool.and_eq_true] at h
+    simp [desugarConds, (inFragGoV_of_inFragGo e h.1).2, desugarConds_id cs h.2]
+
+/-- the old fragment is inside the new one, and there the policy is read back unchanged -/
+theorem policyOKGoV_of_policyOKGo {p : Policy} (h : policyOKGo p = true) : policyOKGoV p = true ∧ desugarPolicy p = p := by
+  simp only [policyOKGo, Bool.and_eq_true] at h
+  refine ⟨?_, ?_⟩
+  · simp only [policyOKGoV, Bool.and_eq_true, h.1.1, h.1.2, true_and]
+    simp only [List.all_eq_true] at h ⊢
+    exact fun c hc => (inFragGoV_of_inFragGo c.2 (h.2 c hc)).1
+  · simp [desugarPolicy, desugarConds_id _ h.2]
 
 theorem polsReads_marshal : ∀ (ps : List Policy), ps.all policyOKGo = true → PolsReads ps (marshalListToks ps)
   | [], _ => .nil
